@@ -102,6 +102,14 @@ def regions(desc, geo=None):
         if f["window"] and any(fs[d]["window"] is None and d not in crossed and any(l["w"] != 1 for l in fs[d]["levels"])
                                for d in _trans_deps(fs, f["id"])):
             out.add("F26")
+    # two crossed within-trial derived factors whose sources overlap: RandomGen's bookkeeping of source combinations
+    # removes one twice (ValueError)
+    for cr in crossings:
+        ders = [f for f in cr if fs[f]["window"] is not None and not _is_complex(fs, f)]
+        for i, f1 in enumerate(ders):
+            for f2 in ders[i + 1:]:
+                if _trans_deps(fs, f1) & _trans_deps(fs, f2):
+                    out.add("F32")
     # Sequential on a weighted factor outside every crossing: the mismatch checker compares with the hidden desugared
     # factor's levels and reports 'Sequential' for every sample
     for c in D.all_constraints(desc["block"]):
@@ -164,13 +172,14 @@ def known_for(regs, prop, kind):
     the signatures it was recorded with, so a different failure in the same region is still reported."""
     table = [
         ("F10", ("exhaust:missing-all", "agree:sat-empty", "random-exception:AssertionError", "trialcount", "count",
-                 "mismatch:trial_count", "mismatch:crossing", "distinct", "geometry")),
+                 "mismatch:trial_count", "mismatch:crossing", "distinct", "geometry", "sound:crossing")),
         ("F18", ("random-exception:KeyError",)),
         ("F22", ("exhaust", "agree", "sound", "sat-exception:IndexError", "random-exception:IndexError", "count", "trialcount", "mismatch", "law", "geometry")),
         ("F19", ("exhaust", "agree", "sound:derived", "sat-exception:RuntimeError", "count")),
         ("U1", ("agree", "exhaust", "sound:constraint", "mismatch")),
         ("F26", ("mismatch:KeyError",)),
         ("F30", ("mismatch:Sequential",)),
+        ("F32", ("random-exception:ValueError",)),
     ]
     for r, kinds in table:
         if r in regs and any(kind == k or kind.startswith(k + ":") or kind.startswith(k + "-") or kind.startswith(k) for k in kinds):
@@ -660,7 +669,40 @@ def perturb(rng, desc, seq):
     return out
 
 
-def oracle_c01_latin(ctx, budget_s):
+def oracle_c04_latin(ctx, budget_s):
+    """The same for RandomGen (which enforces LatinSquare by rejection), plus LatinSquare over two uncrossed factors
+    beside a crossed third one, the smaller factor listed first."""
+    oracle_c01_latin(ctx, budget_s, strats=("RandomGen",), prop="C04")
+    if ctx.failures:
+        return
+    for shape in ((2, 3), (3, 2), (2, 4)):
+        fs = [sp.Factor("F%d" % i, ["l%d_%d" % (i, j) for j in range(n)]) for i, n in enumerate(shape)]
+        other = sp.Factor("G", ["g1", "g2"])
+        N = max(shape)
+        total = 2 * N
+        try:
+            blk = quiet(sp.CrossBlock, fs + [other], [other], [sp.LatinSquare(fs), sp.MinimumTrials(total)])
+            exps = O.synth(blk, 6, "RandomGen", timeout=30)
+        except O.CallTimeout:
+            continue
+        except Exception as e:
+            ctx.fail("C04: RandomGen raised %s for a LatinSquare over uncrossed factors with level counts %s" % (type(e).__name__, shape),
+                     {"kind": "latin-uncrossed", "shape": list(shape)})
+            return
+        ctx.count("C04.latin-uncrossed")
+        ctx.case(("C04latin-uncrossed", shape), True)
+        for e in exps:
+            T = len(e["F0"])
+            for s0 in range(0, T - T % N, N):
+                for i, n in enumerate(shape):
+                    if len(set(e["F%d" % i][s0:s0 + N])) != n:
+                        ctx.fail("C04: LatinSquare over uncrossed factors with level counts %s (RandomGen): trials %d..%d do not show "
+                                 "every level of F%d in %s" % (shape, s0, s0 + N - 1, i, json.dumps(e)[:300]),
+                                 {"kind": "latin-uncrossed", "shape": list(shape)})
+                        return
+
+
+def oracle_c01_latin(ctx, budget_s, strats=("IterateSATGen", "CMSGen"), prop="C01"):
     """LatinSquare as documented (constraints.rst): with N the largest level count, every aligned run of N trials
     shows every level of every listed factor, and successive runs use distinct combinations until all are exhausted -
     so with prod(levels) trials every combination occurs exactly once."""
@@ -671,7 +713,7 @@ def oracle_c01_latin(ctx, budget_s):
     t_end = ctx.elapsed() + min(budget_s, 25 if not ctx.big() else 120)
     for shape in shapes:
         for crossed in (False, True):
-            for strat in ("IterateSATGen", "CMSGen"):
+            for strat in strats:
                 if ctx.elapsed() > t_end:
                     return
                 fs = [sp.Factor("F%d" % i, ["l%d_%d" % (i, j) for j in range(n)]) for i, n in enumerate(shape)]
@@ -685,10 +727,10 @@ def oracle_c01_latin(ctx, budget_s):
                 except O.CallTimeout:
                     continue
                 except Exception as e:
-                    ctx.fail("C01: %s raised %s for a LatinSquare over level counts %s" % (strat, type(e).__name__, shape),
+                    ctx.fail("%s: %s raised %s for a LatinSquare over level counts %s" % (prop, strat, type(e).__name__, shape),
                              {"kind": "latin", "shape": list(shape), "crossed": crossed, "strategy": strat})
                     return
-                ctx.count("C01.latin")
+                ctx.count(prop + ".latin")
                 ctx.case(("C01latin", shape, crossed, strat), True)
                 for e in exps:
                     T = len(e["F0"])
@@ -704,8 +746,8 @@ def oracle_c01_latin(ctx, budget_s):
                                 if len(set(e["F%d" % i][s0:s0 + N])) != n:
                                     bad = "trials %d..%d do not show every level of F%d" % (s0, s0 + N - 1, i)
                     if bad:
-                        ctx.fail("C01: LatinSquare over level counts %s (%s, crossing %s): %s in %s" % (
-                            shape, strat, "given" if crossed else "empty", bad, json.dumps(e)[:300]),
+                        ctx.fail("%s: LatinSquare over level counts %s (%s, crossing %s): %s in %s" % (
+                            prop, shape, strat, "given" if crossed else "empty", bad, json.dumps(e)[:300]),
                             {"kind": "latin", "shape": list(shape), "crossed": crossed, "strategy": strat})
                         return
 
@@ -860,7 +902,13 @@ def oracle_c03(ctx, budget_s):
 def replay_design(ctx, r):
     """Re-run the recorded check on the recorded design."""
     if r.get("kind") == "latin":
-        oracle_c01_latin(ctx, 60)
+        if r.get("strategy") == "RandomGen":
+            oracle_c04_latin(ctx, 60)
+        else:
+            oracle_c01_latin(ctx, 60)
+        return
+    if r.get("kind") == "latin-uncrossed":
+        oracle_c04_latin(ctx, 60)
         return
     case = O.Case(ctx, r["desc"])
     if not case.build():
